@@ -12,6 +12,8 @@ CONSTANTS
   ProbeNs <- ProbesExh
   ProbeUids <- UidsExh
   MaxOld = 0
+  Transports <- TrIP
+  ScmpTypes <- ScmpNone
 VIEW viewU
 INVARIANTS SentLeavesPool FieldCount PlaceholderType ReqFits ReqFitsConst NoShrink PoolCap StaysFull RespFits RespCount ProbeAnswered FreshCookiesOpen
 PROPERTIES SingleUse Answered Fresh
